@@ -76,6 +76,22 @@ func c02(c *Ctx) {
 			"submitted may only be set (to true) in handleObservation on the publish path")
 	}
 	R.Floor("C02.once.store", nsub, 1)
+	// an existing aggregation entry is never replaced (that would forget `submitted` within its lifetime)
+	nrep := 0
+	for _, s := range mapUpdatesOnField(p, a.fVaaSigs) {
+		nrep++
+		mu := s.Instr.(*ssa.MapUpdate)
+		mapT := facts.Term(mu.Map) + "[" + facts.Term(mu.Key) + "]"
+		fs := facts.At(mu, nil)
+		ok := false
+		for _, f := range fs {
+			if f.Atom == mapT+" == nil" && a.w.unstable(f, mu) == "" {
+				ok = true
+			}
+		}
+		R.Check("C02.once", R.Key("C02.once", shortFn(s.Fn), "mapupdate:vaaSignatures"), c.sitePos(p, s), "an aggregation entry is created only when none exists for the digest (an existing entry, with its submitted flag, is never replaced)", ok, "no must-hold fact `"+mapT+" == nil` at the map write", facts.Atoms(fs)...)
+	}
+	R.Floor("C02.once.entry-create", nrep, 2)
 
 	// ---- threshold-exact: reuse C01's structural quorum check (op must be exactly >=) -------
 	for _, s := range sinks {
